@@ -14,6 +14,7 @@
 From Ark Require Import Model.Base Model.Mask Model.Pool Model.World Model.Run.
 From Ark Require Import Proofs.LockSpec Proofs.LockProofs Proofs.LockWorld Properties.Common.
 From Ark Require Import Model.Util Proofs.Rel2Defs Proofs.Rel2Hist Proofs.Rel2HistQ Proofs.Rel2HistQL.
+From Ark Require Import Proofs.ObsErase Proofs.Rel2HistO.
 
 Theorem C07_mask_exact :
   forall ops b, let g := lrun ops in mk_get (lk_mask (lg_lock g)) b = true <-> In b (lg_held g).
@@ -110,5 +111,16 @@ Proof. exact reachable_locked_structural_unchanged. Qed.
     calls inside the locked window; the lock bits and cursors at five points of it. *)
 Definition C07_history_examples := (r2q_script_inv, r2q_mid_inv, r2q_mid_shape, r2q_mid_blocked, r2l_mid_LQ, r2l_script_locks, r2l_mid_close).
 
-Definition C07_all := (C07_locked_iff_some_query_open, C07_open_queries_hold_distinct_bits, C07_close_always_succeeds, C07_reachable_locked_structural_unchanged, C07_history_examples, C07_mask_exact, C07_held_distinct_below_64, C07_locked_iff_held, C07_lock_fresh_or_exhausted, C07_unlock_balanced, C07_structural_blocked, C07_reads_do_not_change_state).
+(** ... and the same in every reachable locked state of histories WITH observers (Rel2HistO). *)
+Theorem C07_reachable_locked_structural_unchanged_with_observers :
+  forall (c : script_cfg) (lines : list (list Z)) (wd : bool) (line : list Z) (o : op),
+         Forall (rel_o_line (sc_kinds c)) lines ->
+         is_locked (exec c lines) = true ->
+         decode_op line = Some o ->
+         structural o = true ->
+         (exists er : err, step_op (sc_debug c) o (exec c lines) = Err er (exec c lines)) /\
+         fst (step (sc_debug c) wd (exec c lines) line) = exec c lines.
+Proof. exact reachable_locked_structural_unchanged_O. Qed.
+
+Definition C07_all := (C07_reachable_locked_structural_unchanged_with_observers, C07_locked_iff_some_query_open, C07_open_queries_hold_distinct_bits, C07_close_always_succeeds, C07_reachable_locked_structural_unchanged, C07_history_examples, C07_mask_exact, C07_held_distinct_below_64, C07_locked_iff_held, C07_lock_fresh_or_exhausted, C07_unlock_balanced, C07_structural_blocked, C07_reads_do_not_change_state).
 Print Assumptions C07_all.
